@@ -5,7 +5,7 @@
    batcher); (b) the signature scheme is a section variable with the three idealised properties of ed25519
    below - the real golang.org/x/crypto/ed25519 is exercised (every single-bit modification), not proved. *)
 From Coq Require Import String Permutation.
-From QV Require Import Base.Util Sender.Batcher Sender.BatcherProofs Sender.Sign.
+From QV Require Import Base.Util Sender.Batcher Sender.BatcherProofs Sender.Sign Sender.Proposers.
 
 Section C17.
   Variable S : Type.           (* signed snapshots *)
@@ -71,9 +71,30 @@ Proof.
   split; [apply String.eqb_refl|]. intros m sg Hq. apply String.eqb_eq in Hq. congruence.
 Qed.
 
+(* The proposing side (RaftNode.AddBulk): any number of proposers push the snapshots they were given onto the one channel,
+   resuming in any order after raft applied their entries.  Whatever the interleaving, the channel carries every issued
+   snapshot exactly once (ps = what each proposer was given, l = what the channel receives). *)
+Theorem C17_concurrent_proposers_hand_over_every_snapshot_once (A : Type) (ps : list (list A)) (l : list A) :
+  interleave A ps l -> NoDup (concat ps) ->
+  NoDup l /\ forall x, In x l <-> In x (concat ps).
+Proof. exact (interleave_each_once A ps l). Qed.
+
+Theorem C17_concurrent_proposers_conserve (A : Type) (ps : list (list A)) (l : list A) :
+  interleave A ps l -> Permutation l (concat ps).
+Proof. exact (interleave_perm A ps l). Qed.
+
+(* with a "published" high-water mark in front of the channel (seeded change C17-10) the statement is false: a schedule of
+   two proposers loses versions 0 and 1 *)
+Theorem C17_high_water_mark_refuted :
+  interleave N [[0; 1]; [2]]%N [2; 0; 1]%N /\ hwm_filter 0 [2; 0; 1]%N = [2]%N.
+Proof. exact hwm_loses_a_snapshot. Qed.
+
 Print Assumptions C17_exactly_once_in_bounded_batches.
 Print Assumptions C17_conservation_at_every_step.
 Print Assumptions C17_batch_size_bound.
 Print Assumptions C17_message_determines_snapshot.
 Print Assumptions C17_signed_snapshot_verifies.
 Print Assumptions C17_signature_binds.
+Print Assumptions C17_concurrent_proposers_hand_over_every_snapshot_once.
+Print Assumptions C17_concurrent_proposers_conserve.
+Print Assumptions C17_high_water_mark_refuted.
